@@ -350,6 +350,10 @@ class ProcessRunner(Runner, ABC):
                 storage=storage
             )
         finally:
+            # Emit whatever the task wrote to stdout/stderr before the
+            # outcome is handed back to the main process.
+            sys.stdout.flush()
+            sys.stderr.flush()
             process_event_queue.put(ProcessEndEvent(
                 task_name=task_name,
             ))
